@@ -2104,21 +2104,33 @@ def do_headless_window_case(req):
     from pykdebugparser.pykdebugparser import PyKdebugParser
     inv = {v: k for k, v in _cached_codes().items()}
     name = req['decoder']
-    recs = []
-    for i, q in enumerate((0, 2, 3, 1, 2)):
-        recs.append(struct.pack('<Q32sQIIQ', 10 + i, struct.pack('<QQQQ', 77, 0x61626364, 0, 0), 5, inv[name] | q, 0, 0))
-    data = S.build_v2([(5, 10, 'proc')], 0, recs)
-    for cfg in ({}, {'filter_class': [inv[name] >> 24]}, {'filter_process': 'proc'}):
-        p = PyKdebugParser()
-        p.color = False
-        for k, v in cfg.items():
-            setattr(p, k, v)
-        try:
-            list(p.formatted_traces(io.BytesIO(data)))
-        except BaseException as ex:  # noqa
-            return {'violates': True, 'what': 'formatted_traces%s over a dump that begins with headless %s records raised %s: %s' % (
-                ' with %r' % cfg if cfg else '', name, type(ex).__name__, ex)}
-    return {'violates': False}
+    # argument words: the first choice that every enum parameter of the decoder accepts (a word outside the range a decoder names
+    # is not an input the property speaks about)
+    for words in ((77, 0x61626364, 0, 0), (0, 0, 0, 0), (1, 1, 1, 1), (2, 2, 2, 2), (4, 4, 4, 4)):
+        recs = []
+        for i, q in enumerate((0, 2, 3, 1, 2)):
+            recs.append(struct.pack('<Q32sQIIQ', 10 + i, struct.pack('<QQQQ', *words), 5, inv[name] | q, 0, 0))
+        data = S.build_v2([(5, 10, 'proc')], 0, recs)
+        out_of_domain = False
+        for cfg in ({}, {'filter_class': [inv[name] >> 24]}, {'filter_process': 'proc'}):
+            p = PyKdebugParser()
+            p.color = False
+            for k, v in cfg.items():
+                setattr(p, k, v)
+            try:
+                list(p.formatted_traces(io.BytesIO(data)))
+            except ValueError as ex:
+                if ' is not a valid ' in str(ex):
+                    out_of_domain = True
+                    break
+                return {'violates': True, 'what': 'formatted_traces%s over a dump that begins with headless %s records raised %s: %s' % (
+                    ' with %r' % cfg if cfg else '', name, type(ex).__name__, ex)}
+            except BaseException as ex:  # noqa
+                return {'violates': True, 'what': 'formatted_traces%s over a dump that begins with headless %s records raised %s: %s' % (
+                    ' with %r' % cfg if cfg else '', name, type(ex).__name__, ex)}
+        if not out_of_domain:
+            return {'violates': False}
+    return {'violates': False, 'note': 'no argument words in the range of every enum parameter found'}
 
 
 HANDLERS['headless_window_case'] = do_headless_window_case
